@@ -11,8 +11,9 @@ C08 — conversions among graph, stabilizer and density-matrix forms preserve th
     C08.state_to_graph_sound then makes exactness of every returned result a theorem about the modelled code.
 Completeness: `state_to_graph` must return on EVERY stabilizer state (theorem C08.state_to_graph_complete for the model); an exception of
 the implementation on a valid state is a violation.  Regression inputs of the repaired D40 (`_position_finder` assumed a pivot at
-(0,0)): |0>, |0>|+>, |0> x Bell.  A raise that disappears when det/inv are computed exactly is keyed as the float artefact D49
-(`np.linalg.det(..).astype(int)` truncating 2.9999999999999996 -> 2; repaired, kept as a classification).
+(0,0)): |0>, |0>|+>, |0> x Bell; of the repaired D49 (float determinant truncated) and D51 (float det*inv loses the integers from ~42
+qubits on; /repo 70adac4 replaced it by the exact Gauss-Jordan `_gf2_inverse`, which the model's `gf2Inv` mirrors literally): they must
+convert and agree exactly with the model like every other input.
 """
 import itertools
 
@@ -25,67 +26,29 @@ from harness.common import Driver, Result, err_class
 LEVEL = "proof"
 TRUSTED_BASE = [
     "Lean 4.33 kernel; theorems of Properties/C08 (graph->generators for every n; CZ-on-|+..+> builds the graph generators; soundness of the conversion validator; "
-    "soundness of the modelled state_to_graph / stabilizer_to_graph for every input and every candidate GF(2) inverse; round trip on graph states)",
+    "soundness of the modelled state_to_graph / stabilizer_to_graph for every input and every candidate GF(2) inverse; completeness (the modelled state_to_graph "
+    "returns exactly on the stabilizer states, n >= 1: state_to_graph_complete / _correct / _returns_iff_state; the GF(2) inverse of the model, Gauss-Jordan "
+    "`gf2Inv`, is since /repo 70adac4 literally the code's `_gf2_inverse` — no float step is left in state_to_graph); stabilizer_to_graph on every generating "
+    "set of |G>; gauge independence; single-qubit gates; state round trip; Hilbert-space form U rho U^dagger = |G><G|)",
     "correspondence of Model/StateToGraph.lean with state_rep_conversion.py: exact comparison (graph, gate list, error class) on every generated input — testing, not proof",
-    "the floating-point parts of the density-matrix side (negativity-based edge detection, density matrices) are compared numerically per input, not proved",
+    "density -> graph: proved at the level of stabilizer groups (the pair group of |G> at (i, j) is the two-vertex graph state with an edge iff A[i,j]: "
+    "density_to_graph_pair_state_partial) and on exact 4x4 rational matrices (negativity 0 resp. 1/2: density_to_graph_pair_negativity); cited, not proved: "
+    "<0_M| rho_S |0_M> = 2^-n * sum of the restrictions of the X/Y-free elements, uniqueness of the Jordan decomposition; the floating-point parts "
+    "(dense matrices, eigenvalues, purity test) are compared numerically per input: project_and_remove and negativity of every pair against the two proved states",
     "harness dense reference (n <= 5) and independent signed-group canonicaliser",
 ]
 ASSUMPTIONS = [
     "density-matrix inputs are pure graph states; mixed-state lists are outside the quantifier",
-    "float GF(2) inverses: `np.linalg.det(x).astype(int) % 2` and `(det * inv % 2).astype(int)` are modelled by exact GF(2) elimination; they agree with the model "
-    "whenever the float determinant/adjugate entries are within truncation of the exact integers from above (|error| small AND not below the integer); where they "
-    "are not, the implementation raises (finding D49) — the soundness theorem holds for every candidate inverse, because the code re-checks x_inv @ x.T == I",
+    "the GF(2) inverses of `_graph_finder` / `_phase_correction` are the exact Gauss-Jordan `_gf2_inverse` (/repo 70adac4, repair of D51; before: float det*inv, "
+    "D49/D51) and are modelled literally (same pivot rule: first row at or below the diagonal with a 1, swap, clear every other row); the soundness theorem does not "
+    "depend on it (it holds for every candidate inverse, because the code re-checks x_inv @ x.T == I)",
     "n >= 1 (row_reduction does not terminate on a 0 x 0 matrix)",
 ]
 
 KEY_RAISES = "state_to_graph:valid-state:raises:assertion"
-KEY_D49 = "state_to_graph:float-determinant-truncated:raises"
-
-
-class ExactLinalg:
-    """context manager: np.linalg.det / np.linalg.inv computed exactly (rationals) for integer matrices — used only to classify an
-    implementation/model disagreement as the float artefact D49"""
-
-    def __enter__(self):
-        from fractions import Fraction
-
-        self.det, self.inv = np.linalg.det, np.linalg.inv
-
-        def elim(a):
-            a = np.asarray(a)
-            n = a.shape[0]
-            m = [[Fraction(int(a[i, j])) for j in range(n)] + [Fraction(int(i == j)) for j in range(n)] for i in range(n)]
-            det = Fraction(1)
-            for c in range(n):
-                p = next((i for i in range(c, n) if m[i][c] != 0), None)
-                if p is None:
-                    return Fraction(0), None
-                if p != c:
-                    m[c], m[p] = m[p], m[c]
-                    det = -det
-                det *= m[c][c]
-                pv = m[c][c]
-                m[c] = [v / pv for v in m[c]]
-                for i in range(n):
-                    if i != c and m[i][c] != 0:
-                        f = m[i][c]
-                        m[i] = [u - f * v for u, v in zip(m[i], m[c])]
-            return det, [[m[i][n + j] for j in range(n)] for i in range(n)]
-
-        def det(a):
-            return np.float64(int(elim(a)[0]))
-
-        def inv(a):
-            d, iv = elim(a)
-            if iv is None:
-                raise np.linalg.LinAlgError("Singular matrix")
-            return np.array([[int(d * v) for v in r] for r in iv], dtype=float) / float(int(d))
-
-        np.linalg.det, np.linalg.inv = det, inv
-        return self
-
-    def __exit__(self, *a):
-        np.linalg.det, np.linalg.inv = self.det, self.inv
+# Z part (42 x 42, row-major bits as hex) of a generating set of |0..0> on 42 qubits on which /repo before 70adac4 (D51) raised
+# 'Unexpected X matrix.': the float det*inv of the X part after the Hadamards (det = 86641533866367) was not within 1/2 of the adjugate
+FLOAT_LIMIT_Z42 = "15c245dd0e26245e41cb4fbe50f78eb36385a958618f1fbd96f3c99bf7307a54d9731cc6af23df33c3d12d6894b1cc92b2ad5ed12032a0f4e9c9e13920b82fa69812afb10b28541951bb137a62d330509a6f2a200f34c80bd15ba275042a57a50d904cc693b56d7d236c9771f7e6c68065372f0ff0d04181de9851ce9266cbb690d3c9b0d80aa9ab9aa0c9b83efa26861407fdde3849c546b90defcbb05ad2d0bb5c158961c157f5093944d42224a3331ea33b8a645e392daeba97297b40926ecbb43b0de9e7e903114d7440892b5a96986533233cbb10744dcdc9d10"
 
 
 def impl_state_to_graph(tab):
@@ -134,6 +97,31 @@ def adj_of(g, n):
     return nx.to_numpy_array(g, nodelist=sorted(g.nodes())).astype(int)
 
 
+# the two two-qubit states of theorem C08.density_to_graph_pair_state_partial / Proofs/StateToGraphNegativity.lean (exact rationals there)
+RHO_PLUS = np.full((4, 4), 0.25)
+RHO_EDGE = np.outer([1, 1, 1, -1], [1, 1, 1, -1]) / 4.0
+
+
+def check_pair_states(res, adj, rho, inp):
+    """the intermediate quantities of `_density_to_graph_pure` on |G><G| against what the Lean theorems say they are: for every pair i < j,
+    `project_and_remove` (all other qubits projected onto |0> and traced out) is the graph state of the induced pair (|++> or CZ|++>), its
+    negativity is 0 resp. 1/2 — numerically, 1e-9"""
+    from graphiq.backends.density_matrix import functions as dmf
+
+    n = adj.shape[0]
+    for i in range(n):
+        for j in range(i + 1, n):
+            mask = [0 if k in (i, j) else 1 for k in range(n)]
+            rho_ij = np.asarray(dmf.project_and_remove(rho.copy(), mask))
+            want = RHO_EDGE if adj[i, j] else RHO_PLUS
+            neg = float(dmf.negativity(rho_ij, 2, 2))
+            if not np.allclose(rho_ij, want, atol=1e-9) or abs(neg - (0.5 if adj[i, j] else 0.0)) > 1e-9:
+                res.exact_break("density_to_graph:pair-state", input=dict(inp, pair=[i, j]), impl=[np.round(rho_ij.real, 6).tolist(), neg],
+                                model="graph state of the induced pair: " + ("CZ|++>, negativity 1/2" if adj[i, j] else "|++>, negativity 0"))
+            else:
+                res.traces_validated += 1
+
+
 def check_graph(ctx, res, drv, adj, pending):
     import networkx as nx
     from graphiq.backends import state_rep_conversion as rc
@@ -163,6 +151,7 @@ def check_graph(ctx, res, drv, adj, pending):
             back = rc.density_to_graph(rho_ref.copy())
             if not np.array_equal(adj_of(back, n), adj):
                 res.violation("density_to_graph:wrong-graph", "density_to_graph does not recover G from |G><G|", input=inp, impl=tu.bits(adj_of(back, n)))
+            check_pair_states(res, adj, rho_ref, inp)
         except Exception as e:  # noqa: BLE001
             res.violation(f"density_conversion:raises:{err_class(e)}", f"graph<->density conversion raised: {str(e)[:100]}", input=inp)
     # stabilizer -> graph in random generating sets
@@ -220,23 +209,15 @@ def check_state_to_graph(ctx, res, drv, tab, pending, tag):
 
 
 def classify_raise(res, inp, impl, rep):
-    """the implementation raised on a valid stabilizer state (the property's completeness half fails): which known finding is it?"""
-    tab = inp.pop("_tab")
+    """the implementation raised on a valid stabilizer state: the property's completeness half fails (theorem C08.state_to_graph_complete says
+    the modelled code returns on every stabilizer state) — a violation whatever the model answers"""
+    inp.pop("_tab", None)
     model_ok = rep["_status"] == "ok"
     if impl[1] != "assertion":
         res.violation(f"state_to_graph:raises:{impl[1]}", f"state_to_graph raised {impl[1]}: {impl[2]}", input=inp)
         return model_ok is False and rep["_raw"].split()[1] == impl[1]
-    # the exact model returns: is floating point the only difference?
-    with ExactLinalg():
-        again = impl_state_to_graph(tab)
-    if again[0] == "ok" and (again[1], again[2]) == (rep.get("a"), rep.get("gates")):
-        res.count("errors", "D49:float-determinant")
-        res.violation(KEY_D49, f"state_to_graph raises AssertionError('{impl[2]}') on a valid stabilizer state although exact arithmetic converts it: "
-                      "np.linalg.det(x).astype(int) truncates the float determinant", input=dict(inp, exact_result=again))
-        return True
     res.count("errors", "raises:assertion")
-    res.violation(KEY_RAISES, f"state_to_graph raises AssertionError('{impl[2]}') on a valid stabilizer state (exact arithmetic does not help)",
-                  input=dict(inp, model=rep["_raw"][:200]))
+    res.violation(KEY_RAISES, f"state_to_graph raises AssertionError('{impl[2]}') on a valid stabilizer state", input=dict(inp, model=rep["_raw"][:200]))
     return model_ok is False and rep["_raw"].split()[1] == "assertion"
 
 
@@ -388,8 +369,29 @@ def check_node_order(ctx, res, adj):
 # states whose qubit 0 has no X component after row reduction (|0>, |0>|+> = <ZX, ZI>, |0> x Bell = <IXX, ZII, IZZ>): state_to_graph raised
 # on them before the repair of D40 (/repo 86ab4f1); they must convert
 FORMER_D40 = ["n=1 x=0 z=1 r=0", "n=2 x=0100 z=1010 r=00", "n=3 x=011000000 z=000100011 r=000"]
-# smallest witness found for D49 (5 qubits): float det*inv of the X part after the Hadamards is not integral enough for astype(int)
+# smallest witness found for the repaired D49 (5 qubits): float det*inv of the X part after the Hadamards was not integral enough for astype(int)
 D49_WITNESS = "n=5 x=0000000000000001100000000 z=1111000011001010101011001 r=00110"
+
+
+def dense_zero_state(rng, n):
+    """|0..0> on n qubits presented by a random dense generating set: X part 0, Z part a random invertible GF(2) matrix, signs +"""
+    from graphiq.backends.stabilizer.tableau import StabilizerTableau
+
+    while True:
+        b = np.array([[rng.randrange(2) for _ in range(n)] for _ in range(n)], dtype=int)
+        m = b.copy()
+        r = 0
+        for c in range(n):
+            p = next((i for i in range(r, n) if m[i, c]), None)
+            if p is None:
+                break
+            m[[r, p]] = m[[p, r]]
+            for i in range(n):
+                if i != r and m[i, c]:
+                    m[i] ^= m[r]
+            r += 1
+        if r == n:
+            return StabilizerTableau([np.zeros((n, n), dtype=int), b])
 
 
 def run(ctx, budget=1.0):
@@ -406,6 +408,12 @@ def run(ctx, budget=1.0):
     for w in FORMER_D40:
         check_state_to_graph(ctx, res, drv, stab_of_args(w), pending, "corpus:former-D40")
     check_state_to_graph(ctx, res, drv, stab_of_args(D49_WITNESS), pending, "corpus:D49")
+    # regression corpus of the repaired D51 (float det*inv): |0..0> on 42 qubits in a dense generating set (fixed witness) and random ones on 48
+    z42 = bin(int(FLOAT_LIMIT_Z42, 16))[2:].zfill(42 * 42)
+    check_state_to_graph(ctx, res, drv, stab_of_args(f"n=42 x={'0' * 1764} z={z42} r={'0' * 42}"), pending, "corpus:former-D51")
+    for _ in range(1 if ctx.quick else 5):
+        check_state_to_graph(ctx, res, drv, dense_zero_state(rng, 48), pending, "corpus:former-D51")
+    flush(res, drv, pending)
     nmax = 4 if ctx.quick else 5
     for n in range(1, nmax + 1):
         for adj in all_adj(n):
